@@ -509,7 +509,13 @@ def run_cell(h, cell, tier, seed, budget_s):
         label_ok = {}
         for (label, sig), lst in groups.items():
             confirmed = 0
-            for v, ctx in lst[:4]:
+            # replay candidates: the first few violating paths, the last few and an evenly spaced sample (a spurious
+            # symbolic violation of the smallest shape must not hide a real one of a larger shape in the same group)
+            cand = list(lst[:4])
+            if len(lst) > 4:
+                step_ = max(1, len(lst) // 5)
+                cand += [lst[i] for i in range(4, len(lst), step_)][:5] + list(lst[-3:])
+            for v, ctx in cand:
                 r = _replay_violation(h, cell, v, ctx, want_sig=sig)
                 if r["reproduced"]:
                     confirmed += 1
